@@ -327,7 +327,7 @@ def deserialize_then_verify(fb, ctx):
             for s in blk["s"]:
                 r = s["r"]
                 if r.get("k") == "agg" and r.get("adt", "").endswith("ThirdPartyVerificationMode") and r.get("variant") == "UnsafeLegacy":
-                    legacy_users.append(b["path"])
+                    legacy_users.append(re.sub(r"(::\{closure#\d+\})+$", "", b["path"]))     # a closure belongs to its function
     allowed = {F + "::verify_inner"}
     extra = sorted(u for u in set(legacy_users) - allowed if "unsafe" not in u.split("::")[-1])
     ctx.check(not extra, "WHO", "UnsafeLegacy verification mode is only selected by the unsafe_* entry point", "WHO|UnsafeLegacy", f"ThirdPartyVerificationMode::UnsafeLegacy constructed in {extra}", "biscuit-auth/src/format/mod.rs")
@@ -750,19 +750,24 @@ def wire_rules(fb, ctx):
     vifs = [n for n in find_all(th["body"], lambda n: n.get("k") == "if") if (lambda c: c.get("k") == "binary" and c.get("op") == "Gt" and strip(c["a"]).get("name") == "version" and hirq.literal(c["b"]) == 0)(strip(n["cond"]))]
     ctx.check(len(vifs) == 2, "WIRE", "to_proto: version omitted only when 0", "WIRE|to_proto|version-none", f"expected `if x.version > 0 {{ Some(x.version) }} else {{ None }}` for authority and blocks, found {len(vifs)}", where_t)
     # reader
-    cbs = [s for _, s in mirq.aggregates(db, r"crypto::Block$")]
+    cbs = mirq.deep_aggregates(fb, db, r"crypto::Block$")       # the loop over data.blocks may be a `map(|block| ..)` closure
     ctx.floor("crypto::Block aggregates in deserialize", len(cbs), 2)
     want_r = {"data": ".block", "next_key": ".next_key", "signature": ".signature", "version": ".version"}
+    def leaves_r(owner_, s_, f_):
+        lv_ = mirq.deep_leaves(fb, db, owner_, mirq.agg_field(s_, f_))
+        if owner_ is not db:
+            lv_ = lv_ | {l for l in mirq.closure_source_leaves(fb, db, owner_["key"]) if l.startswith("call:")}
+        return lv_
     # which aggregate is the authority block: the one whose data comes from the decoded `.authority` (not its position in the body:
     # after inlining a helper its blocks come last)
-    def who_of(s_):
-        lv_ = mirq.operand_leaves(fb, db, mirq.agg_field(s_, "data"))
+    def who_of(o_s):
+        lv_ = leaves_r(o_s[0], o_s[1], "data")
         return "authority" if any(".authority" in l for l in lv_) and not any(".blocks" in l for l in lv_) else "blocks"
-    cbs = sorted(cbs, key=lambda s_: 0 if who_of(s_) == "authority" else 1)
-    for n, s in enumerate(cbs):
+    cbs = sorted(cbs, key=lambda o_s: 0 if who_of(o_s) == "authority" else 1)
+    for n, (owner_, s) in enumerate(cbs):
         who = "authority" if n == 0 else "blocks"
         for f, suffix in want_r.items():
-            lv = mirq.operand_leaves(fb, db, mirq.agg_field(s, f))
+            lv = leaves_r(owner_, s, f)
             ok = any(suffix in l and (who in l or who == "blocks") for l in lv if not l.startswith("const")) and any(("Biscuit" in l and "decode" in l) or l.startswith("call:") for l in lv)
             ctx.check(ok, "WIRE", f"deserialize: crypto::Block.{f} of {who} <- decoded {who}{suffix}", f"WIRE|deserialize|{who}|{f}", f"field depends on {sorted(lv)[:8]}", where_d)
     dh = fb.hir_of(db)
